@@ -136,6 +136,55 @@ def okIsStart (val : List Char) (table : Int) (ans : Option Bool) : Bool :=
   | some _, some cs => ans == some (cs.contains val)
   | _, _ => ans.isNone
 
+/-! ### histories: a held codon object keeps its answers whatever else is constructed -/
+
+/-- every answer a `Codon` object gives (`none` = the question raised) -/
+structure CodonAnswers where
+  text : List Char
+  trStrict : Option Char
+  trLoose : Option Char
+  stop : Option Bool
+  strict : Option Bool
+  canon : Option Bool
+  st0 : Option Bool
+  st1 : Option Bool
+  st11 : Option Bool
+  syn0 : Option (List (List Char))
+  syn1 : Option (List (List Char))
+  deriving DecidableEq, Repr
+
+/-- all answers of the codon whose value is `v` are the table answers -/
+def okCodonAnswers (v : List Char) (a : CodonAnswers) : Bool :=
+  a.text == v && okTranslate v true a.trStrict && okTranslate v false a.trLoose && okIsStop v a.stop &&
+  okIsStrict v a.strict && a.canon == some (v == "ATG".toList) &&
+  okIsStart v 0 a.st0 && okIsStart v 1 a.st1 && okIsStart v 11 a.st11 &&
+  okSynonymous v false a.syn0 && okSynonymous v true a.syn1
+
+def upperS (s : List Char) : List Char := s.map Char.toUpper
+
+/-- one interleaved construction `Codon(sp)`: (it was accepted, the returned object is the held one) -/
+abbrev Outcome := Bool × Bool
+
+/-- a history: hold `Codon(held)`, record its answers, construct `Codon(sp)` for every `sp` (accepted or refused),
+    ask the held object again, finally `Codon(held) is obj`, `obj == Codon(held)`, `hash(obj) == hash(value)`.
+    Demanded: the held object's answers are the table answers of its value `upper(held)` BEFORE and AFTER (so they
+    are equal), a spelling is accepted iff it is an IUPAC triplet, it yields the held object iff it upper-cases to
+    the same value, and identity / equality / hash hold.  A `held` that is no codon is refused. -/
+def okHist (held : List Char) (sps : List (List Char))
+    (ans : Option (CodonAnswers × List Outcome × CodonAnswers × (Bool × Bool × Bool))) : Bool :=
+  let v := upperS held
+  match expansions v with
+  | none => ans.isNone
+  | some _ =>
+    match ans with
+    | none => false
+    | some (a0, outs, a1, (same, eq, hsh)) =>
+      okCodonAnswers v a0 && okCodonAnswers v a1 && a1 == a0 &&
+      outs == sps.map (fun sp =>
+        let ok := (expansions (upperS sp)).isSome
+        (ok, ok && upperS sp == v)) &&
+      same && eq && hsh
+
 /-- `aacodons[aa]`: exactly the strict codons of the residue, each once -/
 def okAaCodons (aa : Char) (ans : Option (List (List Char))) : Bool :=
   match ans with
